@@ -140,3 +140,30 @@ def _ast_iter_child_nodes(ex, args, kwargs, lineno):
 def _ast_walk(ex, args, kwargs, lineno):
     """ast.walk(n) -> the modelled sequence n.walk (n and all its descendants, breadth-first)."""
     return ex.getattr(args[0], "walk")
+
+
+# ---- ast.unparse / ast.dump (C12, C19): source text / structural dump of a node are uninterpreted functions of the node
+import ast as _ast_mod  # noqa: E402
+
+py_unparse = uf("py_unparse", [__import__("contracts._nodes", fromlist=["PyNode"]).PyNode], Str,
+                concrete=lambda n: _ast_mod.unparse(n))
+py_dump = uf("py_dump", [__import__("contracts._nodes", fromlist=["PyNode"]).PyNode], Str,
+             concrete=lambda n: _ast_mod.dump(n))
+
+
+@external("ast.unparse")
+def _ast_unparse(ex, args, kwargs, lineno):
+    """ast.unparse(n) -> py_unparse(n): the text CPython renders for the node (trusted, uninterpreted)."""
+    return ex.call_uf("py_unparse", [args[0]])
+
+
+@external("ast.dump")
+def _ast_dump(ex, args, kwargs, lineno):
+    """ast.dump(n) -> py_dump(n) (only the default form without keyword options is modelled)."""
+    if len(args) != 1 or kwargs:
+        raise Unsupported("ast.dump with options")
+    return ex.call_uf("py_dump", [args[0]])
+
+
+# ---- process-level effects (click.echo -> ghost stdout/stderr, sys.exit -> SystemExit(code), loguru, json.dumps) -----
+from contracts import _effects  # noqa: E402,F401  (registers the external handlers)
